@@ -414,6 +414,10 @@ class Builder:
             else:
                 step = self.vector_step(ncomp, m, pts, last, depth, weighted)
             out.append((self.name("step", step), step))
+        if not any(hasattr(step, "predict") for _, step in out):
+            # a chain must be able to predict (Chain.predict of a chain without predicting steps has nothing to sum)
+            k = max(i for i, (_, step) in enumerate(out) if isinstance(step, ThinStep))
+            out[k] = (out[k][0], LevelStep())
         return out, m, weighted
 
 
